@@ -244,6 +244,17 @@ def _impl(tier, seed, search):
     Ra = b.angvec2r(abs(ar), vv)
     close('tr2angvec', lambda: b.tr2angvec(Ra, unit='deg')[0], lambda: b.tr2angvec(Ra)[0] * 180 / math.pi, 1e-9, 180.0)
     close('SO3.angvec', lambda: SO3(Ra).angvec(unit='deg')[0], lambda: SO3(Ra).angvec()[0] * 180 / math.pi, 1e-9, 180.0)
+    # planar outputs in degrees are the radian outputs times 180/pi to the last digits (1e-12 relative), at several angles
+    for ath_ in (0.5235987755982988, 3.0, -2.2, 1e-3):
+        Tx_ = b.xyt2tr([1.5, -0.5, ath_])
+        close(f'tr2xyt({ath_:.3g},deg):angle', lambda: b.tr2xyt(Tx_, unit='deg')[2], lambda: b.tr2xyt(Tx_)[2] * 180 / math.pi, 1e-12, abs(ath_) * 180 / math.pi)
+        close(f'SO2.theta({ath_:.3g},deg)', lambda: SO2(ath_).theta(unit='deg'), lambda: SO2(ath_).theta() * 180 / math.pi, 1e-12, abs(ath_) * 180 / math.pi)
+    # every alias of an axis order extracts the same angles as the order it stands for, in the base function and in each class
+    for al_, o_ in (('vehicle', 'zyx'), ('arm', 'xyz'), ('camera', 'yxz')):
+        close(f'tr2rpy[{al_}]', lambda: b.tr2rpy(Rr, order=al_), lambda: b.tr2rpy(Rr, order=o_)); close(f'tr2rpy[{al_},deg]', lambda: b.tr2rpy(Rr, order=al_, unit='deg'), lambda: b.tr2rpy(Rr, order=o_, unit='deg'))
+        close(f'SO3.rpy[{al_}]', lambda: SO3(Rr).rpy(order=al_), lambda: SO3(Rr).rpy(order=o_)); close(f'SE3.rpy[{al_}]', lambda: SE3(b.r2t(Rr)).rpy(order=al_), lambda: SE3(b.r2t(Rr)).rpy(order=o_))
+        close(f'UQ.rpy[{al_}]', lambda: UnitQuaternion(SO3(Rr)).rpy(order=al_), lambda: UnitQuaternion(SO3(Rr)).rpy(order=o_)); close(f'rpy2r[{al_}]', lambda: b.rpy2r(a3r, order=al_), lambda: b.rpy2r(a3r, order=o_))
+        close(f'rpy2r(tr2rpy)[{al_}]', lambda: b.rpy2r(b.tr2rpy(Rr, order=al_), order=al_), lambda: Rr, 1e-9, 1.0)
     # angles of a full turn or more in degrees: still the radian call with a*pi/180 (value for value — getunit, twists, quaternion components)
     for abig in (400.0, -725.0, 360.0, 1234.5):
         abr = abig * math.pi / 180
